@@ -45,6 +45,11 @@ REQUIRE = {
     "U_ops_compared": 1500,
     "U_charset_switches": 500,
     "U_cases_agree_all_feed_modes": 100,
+    "D_ops_compared": 3000,
+    "D_ops_under_origin_mode": 1500,
+    "D_decstbm_changes_under_origin_mode": 200,
+    "D_decstbm_changes_under_origin_mode_not_nested": 60,
+    "D_decstbm_reset_under_origin_mode_from_subregion": 30,
 }
 RULE = (
     "part A: op histories (feed chunk | resize to any size>=1x1 | scroll view | focus) over byte streams from a grammar of "
@@ -54,6 +59,9 @@ RULE = (
     "LF, BS, CUP/HVP, CUx, EL, ED, ICH, DCH, IL, DL, DECSTBM, IND, RI, NEL, SGR, DSR) on 1x1..40x12 terminals, per-op chunking, "
     "driven in lock-step with the faithful and the all-known-quirks model; part S: sequences of 1-6 SGR commands (basic/bright/"
     "256/24-bit colours, bold, underline, blink, reverse and their resets) each followed by one glyph whose style is compared; "
+    "part D: the part-B machinery with DECOM on/off, 2-4 DECSTBM settings per program (nested, overlapping, disjoint, widening, "
+    "bare CSI r, invalid top>=bottom) and probes after each (CUP/HVP to top/bottom/outside rows, LF, RI, IND/NEL, IL/DL, print "
+    "to and past the last column, CPR, CUU/CUD, ED/EL) on 2x3..10x10 terminals; "
     "part A also inserts 'mega' sequences: one parameter of 4299..20000 digits or a list of 500..6000 parameters in CSI / "
     "?-CSI / OSC / DCS-like / charset sequences, whole or split over 2-7 feeds; part K: the same stream (A grammar plus ESC % G "
     "/ ESC % 8 / ESC % @ / ESC c immediately followed by multibyte UTF-8 and 8-bit bytes) fed whole, bytewise and in random "
@@ -77,6 +85,9 @@ ASSUMES = [
     "counts between 1e5 and what python's int() accepts (<= 4300 digits) are not sent to ICH/DCH/IL/DL (they loop per count: "
     "denial of service, not a statement violation); parameters of 4299..20000 digits go to every other final, and those of "
     ">= 4301 digits (which int() refuses, so TermCanvas treats them as missing) to all finals",
+    "origin mode (part D): DECSTBM parameters are absolute screen lines whatever DECOM says; CUP/HVP/home are relative to and "
+    "confined in the region while DECOM is set; ED is not affected by margins; the CPR row is compared as TermCanvas sends it "
+    "(absolute) because the statement only requires well-formed replies",
     "chunking invariance (part K): a terminal is a function of the serial byte stream, so the same bytes cut differently "
     "must give the same grid, cursors, modes, region, scrollback, replies, charset/attribute and carried parser state; "
     "streams on which some chunking raises are left to part A",
@@ -93,6 +104,7 @@ URWID_QUIRKS = (
     "ed1-excludes-cursor-cell",
     "width1-wrap-loses-pending",
     "autowrap-below-region-scrolls-region",
+    "ed-confined-to-region-in-origin-mode",
     "il-removes-line-above-bottom-margin",
 )
 # one canonical probe per quirk: the quirk is "live" in the tree under test iff the faithful model disagrees with urwid on
@@ -102,6 +114,7 @@ QUIRK_PROBES = {
     "pending-wrap-survives-cursor-motion": (10, 3, [["print", "0123456789"], ["CUP", 1, 10], ["print", "X"]]),
     "ed1-excludes-cursor-cell": (10, 3, [["print", "abcdefghij"], ["CUP", 1, 4], ["ED", 1]]),
     "width1-wrap-loses-pending": (1, 3, [["print", "abc"]]),
+    "ed-confined-to-region-in-origin-mode": (4, 4, [["print", "a"], ["CUP", 4, 1], ["print", "d"], ["STBM", 2, 3], ["CUP", 1, 1], ["DECOM", 1], ["ED", 0]]),
     "autowrap-below-region-scrolls-region": (6, 5, [["STBM", 1, 3], ["CUP", 4, 5], ["print", "Y z"]]),
     "il-removes-line-above-bottom-margin": (4, 3, [["print", "a"], ["CUP", 2, 1], ["print", "b"], ["CUP", 3, 1], ["print", "c"], ["CUP", 1, 1], ["IL", 1]]),
 }
@@ -128,7 +141,9 @@ def active_quirks(ctx=None):
 # "scrollback-saves-region-lines": TermCanvas also keeps lines leaving the top of a region that does not start at row 0
 # (xterm drops those).  The statement only requires that lines scrolled off the top are kept in order, so the oracle
 # follows TermCanvas here instead of reporting it (oracle correction, see final report).
-BASE_QUIRKS = frozenset({"il-dl-keep-column", "scrollback-saves-region-lines"})
+# "cpr-absolute-in-origin-mode": TermCanvas reports the absolute row in a CPR also while DECOM is set (a VT100 reports
+# it relative to the top margin).  The statement only asks for well-formed replies, so this is not reported either.
+BASE_QUIRKS = frozenset({"il-dl-keep-column", "scrollback-saves-region-lines", "cpr-absolute-in-origin-mode"})
 
 _vterm = None
 _util = None
@@ -632,7 +647,11 @@ def render_b(op, enc):
     if fin:
         return f"\x1b[{p(op[1])}{fin}".encode()
     if k == "STBM":
+        if op[1] is None and op[2] is None and op[3:] == ["bare"]:
+            return b"\x1b[r"
         return f"\x1b[{p(op[1])};{p(op[2])}r".encode()
+    if k == "DECOM":
+        return b"\x1b[?6h" if op[1] else b"\x1b[?6l"
     if k == "SGR":
         flat = []
         for v in op[1]:
@@ -655,12 +674,13 @@ def admissible(op, vt, st):
     k = op[0]
     if k in ("SGR", "DSR"):
         return True
-    if st.need_cup and k not in ("CUP", "HVP"):
+    if st.need_cup and k not in ("CUP", "HVP", "DECOM"):
         return False
     if st.pending and k not in ("print", "CR", "CUP", "HVP"):
         return False
     if k in ("CUU", "CUD"):
-        return vt.scroll_region == (0, vt.rows - 1)
+        # with origin mode on the cursor cannot leave the region, so stopping at the margins is undisputed
+        return vt.scroll_region == (0, vt.rows - 1) or vt.origin_mode
     if k in ("IL", "DL"):
         top, bot = vt.scroll_region
         return top <= vt.cursor[1] <= bot
@@ -680,6 +700,8 @@ def after_op(op, st, vt):
         st.need_cup = True
     elif k in ("CUP", "HVP"):
         st.need_cup = False
+    elif k == "DECOM":
+        st.need_cup = False  # DECOM homes the cursor (column 0 of the origin row)
 
 
 def gen_count(rng, lim):
@@ -1317,10 +1339,108 @@ def run_s(ctx, wit):
         ctx.violation(*res)
 
 
-def run_b_generated(ctx, rng, shrunk_seen):
+def gen_d_op(rng, vt, st, enc):
+    """part D: origin mode x several DECSTBM settings x probes (CUP to several rows, LF at the bottom margin, RI at the
+    top margin, IL/DL, wrap at the last column, CPR)"""
+    cols, rows = vt.cols, vt.rows
+    top, bot = vt.scroll_region
+    for _ in range(60):
+        r = rng.random()
+        if r < 0.07:
+            op = ["DECOM", 0 if (vt.origin_mode and rng.random() < 0.6) else 1]
+        elif r < 0.27:
+            rr = rng.random()
+            if rr < 0.12:
+                op = ["STBM", None, None, "bare"]
+            elif rr < 0.20:
+                op = ["STBM", None, None]
+            elif rr < 0.30 and rows >= 2:
+                a = rng.randint(1, rows)
+                op = ["STBM", a, rng.randint(1, a)]  # invalid: top >= bottom
+            elif rows >= 2:
+                kind = rng.random()
+                if kind < 0.25 and bot - top >= 2:  # nested
+                    a = rng.randint(top + 1, bot)
+                    b = rng.randint(a + 1, bot + 1) if a + 1 <= bot + 1 else a + 1
+                elif kind < 0.5:  # widening / overlapping upwards and downwards
+                    a = rng.randint(1, max(1, top + 1))
+                    b = rng.randint(min(rows, max(a + 1, bot + 1)), rows)
+                elif kind < 0.7:  # disjoint if there is room, else anything
+                    if top >= 2:
+                        a = rng.randint(1, top - 1) if top - 1 >= 1 else 1
+                        b = rng.randint(a + 1, top)
+                    elif bot + 2 < rows:
+                        a = rng.randint(bot + 2, rows - 1)
+                        b = rng.randint(a + 1, rows)
+                    else:
+                        a = rng.randint(1, rows - 1)
+                        b = rng.randint(a + 1, rows)
+                else:
+                    a = rng.randint(1, rows - 1)
+                    b = rng.randint(a + 1, rows)
+                b = min(max(b, a + 1), rows)
+                op = ["STBM", rng.choice([a, a, a, None]) if a == 1 else a, rng.choice([b, b, b, None]) if b == rows else b]
+            else:
+                op = ["STBM", None, None]
+        elif r < 0.47:
+            rr = rng.random()
+            if rr < 0.3:
+                row = rng.choice([1, bot - top + 1, rows, top + 1, bot + 1])
+            else:
+                row = rng.randint(1, rows + 1)
+            col = cols if rng.random() < 0.3 else rng.randint(1, cols)
+            op = [rng.choice(["CUP", "CUP", "HVP"]), max(1, row), col]
+        elif r < 0.55:
+            op = ["LF"]
+        elif r < 0.63:
+            op = ["RI"]
+        elif r < 0.67:
+            op = [rng.choice(["IND", "NEL"])]
+        elif r < 0.74:
+            op = [rng.choice(["IL", "DL"]), gen_count(rng, rows)]
+        elif r < 0.88:
+            alpha = NARROW_TEXT[enc]
+            n = rng.choice([1, 2, max(1, cols - vt.cursor[0]), cols - vt.cursor[0] + 1, cols + 1])
+            op = ["print", "".join(rng.choice(alpha) for _ in range(max(1, n)))]
+        elif r < 0.93:
+            op = ["DSR", 6]
+        elif r < 0.96:
+            op = [rng.choice(["CUU", "CUD"]), gen_count(rng, rows)]
+        elif r < 0.97:
+            op = ["CR"]
+        else:
+            op = [rng.choice(["ED", "EL"]), rng.choice([0, 1, 2])]
+        if admissible(op, vt, st):
+            return op
+    return ["CUP", 1, 1]
+
+
+def count_d(ctx, op, vt):
+    """coverage of the DECSTBM x origin-mode interaction, judged on the model state BEFORE the op"""
+    if op[0] != "STBM":
+        return
+    t = op[1] or 1
+    b = op[2] or vt.rows
+    valid = t < b <= vt.rows
+    ctx.count("D_decstbm_ops")
+    if not valid:
+        ctx.count("D_decstbm_invalid")
+        return
+    top, bot = vt.scroll_region
+    if vt.origin_mode:
+        ctx.count("D_decstbm_changes_under_origin_mode")
+        if (top, bot) != (0, vt.rows - 1) and not (top <= t - 1 and b - 1 <= bot):
+            ctx.count("D_decstbm_changes_under_origin_mode_not_nested")
+            if t == 1 and b == vt.rows:
+                ctx.count("D_decstbm_reset_under_origin_mode_from_subregion")
+
+
+def run_b_generated(ctx, rng, shrunk_seen, part_d=False):
     """generate one case in lock-step with the models"""
     w, h = rand_size(rng, big=rng.random() < 0.3)
     h = min(h, 12)
+    if part_d:
+        w, h = rng.randint(2, 10), rng.randint(3, 10)
     enc = rng.choice(ENC_B)
     focus = rng.random() < 0.5
     chunk = rng.choice([0, 0, 0, 1, 2, 3, 7])
@@ -1335,7 +1455,12 @@ def run_b_generated(ctx, rng, shrunk_seen):
     first = None
     for _ in range(nops):
         lead = vf if alive_f else vq
-        op = gen_b_op(rng, lead, st, enc)
+        op = (gen_d_op if part_d else gen_b_op)(rng, lead, st, enc)
+        if part_d:
+            count_d(ctx, op, lead)
+            ctx.count("D_ops_compared")
+            if lead.origin_mode:
+                ctx.count("D_ops_under_origin_mode")
         case["ops"].append(op)
         data = render_b(op, enc)
         nrep = len(stub.out)
@@ -1823,6 +1948,10 @@ DIRECTED = [
     {"part": "U", "w": 8, "h": 2, "enc": "iso8859-1", "ops": [["UTF8ON"], ["mb", "ж"], ["ascii", "a"], ["UTF8OFF"], ["raw", [0xFF, 0xA1]]]},
     {"part": "U", "w": 8, "h": 2, "enc": "euc-jp", "ops": [["raw", [0xA4, 0xA2]], ["UTF8ON"], ["mb", "жΩ"], ["RIS"], ["raw", [0xA4]]]},
     {"part": "U", "w": 8, "h": 2, "enc": "utf8", "ops": [["UTF8OFF"], ["mb", "жλ"], ["RIS"], ["mb", "€"]]},
+    # origin mode x successive DECSTBM settings (non-nested, widening, bare reset, invalid) x probes
+    {"part": "B", "w": 6, "h": 8, "focus": False, "enc": "utf8", "chunk": 0, "ops": [["DECOM", 1], ["STBM", 3, 5], ["CUP", 1, 1], ["print", "a"], ["STBM", 2, 7], ["CUP", 1, 1], ["print", "b"], ["DSR", 6], ["CUP", 6, 6], ["print", "cd"], ["LF"], ["CUP", 1, 1], ["RI"], ["IL", 1], ["CUP", 9, 1], ["print", "e"], ["DL", 1], ["CUP", 1, 1]]},
+    {"part": "B", "w": 5, "h": 6, "focus": True, "enc": "ascii", "chunk": 1, "ops": [["STBM", 2, 3], ["CUP", 1, 1], ["DECOM", 1], ["print", "a"], ["STBM", None, None, "bare"], ["CUP", 6, 1], ["print", "z"], ["LF"], ["CUP", 1, 1], ["RI"], ["DSR", 6]]},
+    {"part": "B", "w": 4, "h": 7, "focus": False, "enc": "utf8", "chunk": 0, "ops": [["DECOM", 1], ["STBM", 5, 7], ["CUP", 1, 1], ["print", "a"], ["STBM", 1, 3], ["CUP", 3, 4], ["print", "bc"], ["STBM", 4, 2], ["CUP", 1, 1], ["print", "d"], ["DECOM", 0], ["CUP", 7, 1], ["print", "e"], ["LF"]]},
     {"part": "B", "w": 10, "h": 3, "focus": False, "enc": "utf8", "chunk": 0, "ops": [["print", "0123456789"], ["CUP", 1, 10], ["print", "X"]]},
     {"part": "B", "w": 10, "h": 3, "focus": False, "enc": "utf8", "chunk": 0, "ops": [["print", "abcdefghij"], ["CUP", 1, 4], ["ED", 1]]},
     {"part": "B", "w": 1, "h": 3, "focus": False, "enc": "utf8", "chunk": 0, "ops": [["print", "abc"]]},
@@ -1884,6 +2013,9 @@ def run(ctx):
                     ctx.count("B_cases")
                 for _ in range(2):
                     run_s(ctx, gen_s_case(rng))
+                for _ in range(2):
+                    run_b_generated(ctx, rng, shrunk_seen, part_d=True)
+                    ctx.count("D_cases")
                 for _ in range(3):
                     run_k(ctx, gen_k_case(rng), shrunk_seen)
                 for _ in range(3):
